@@ -88,7 +88,15 @@ pub mod conv {
         v.bits() as usize
     }
     pub fn to_ptr64(v: &CoreVal) -> MaybeUninit<u64> {
-        MaybeUninit::new(v.bits())
+        // The guest may read this slot at pointer type (`.as_ptr().cast::<*mut u8>().read()`):
+        // the low pointer-sized bytes are therefore written as a pointer (exposed provenance), so
+        // that under Miri the guest does not get a provenance-less pointer from the host.  Read at
+        // integer type the bytes are unchanged.
+        let mut m = MaybeUninit::<u64>::new(v.bits());
+        if cfg!(target_endian = "little") {
+            unsafe { m.as_mut_ptr().cast::<*mut u8>().write(std::ptr::with_exposed_provenance_mut(v.bits() as usize)) };
+        }
+        m
     }
     pub fn from_i32(x: i32) -> CoreVal {
         CoreVal::I32(x as u32)
